@@ -5,7 +5,9 @@ PROPERTY = "C17"
 LEAN_MODULES = ["GT.Props.C17"]
 ASSUMPTIONS = ["float64 rounding outside the theorems; true expectations by adaptive quadrature (Dx = 1) and converged "
                "tensor Gauss-Hermite (Dx >= 2), inequality up to 1e-7 + quadrature error",
-               "step and rectified-linear links are covered with the truncated measures, not here"]
+               "step and rectified-linear links: modelled (GT/Model/HeteroTrunc.lean) and tied by the correspondence run; their "
+               "bounds are validated against piecewise quadrature only (no theorem): step link equality, rectified-linear "
+               "inequality and quadratic decay of the gap"]
 
 
 def cases(seed, tier):
